@@ -193,8 +193,6 @@ def derived_queries(allnames):
         q.add(s[1:])
         q.add(s.swapcase())
         q.add(s + s)
-        q.add(s.lower())
-        q.add(s.upper())
     q.add("")
     q.add("world")
     q.add("World")
@@ -214,11 +212,26 @@ def type_code_list(codes, enum):
     return out
 
 
+_RAW = {}
+
+
+def raw(lib):
+    """unguarded entry points: mj_name2id / mj_id2name contain no mju_error path, so the setjmp wrapper is not needed
+    (a crash kills the worker and core.pmap reports it)."""
+    r = _RAW.get(id(lib))
+    if r is None:
+        n2i = lib.c.mj_name2id
+        n2i.restype = ctypes.c_int
+        n2i.argtypes = [ctypes.c_void_p, ctypes.c_int, ctypes.c_char_p]
+        i2n = lib.c.mj_id2name
+        i2n.restype = ctypes.c_char_p
+        i2n.argtypes = [ctypes.c_void_p, ctypes.c_int, ctypes.c_int]
+        r = _RAW[id(lib)] = (n2i, i2n)
+    return r
+
+
 def id2name_bytes(lib, m, code, i):
-    p = lib.mj_id2name(m, code, i)
-    if not p:
-        return None
-    return ctypes.string_at(p)
+    return raw(lib)[1](m.ptr, code, i)
 
 
 def table_layout(H, exp):
@@ -283,8 +296,12 @@ def check_tables(part, H, m, exp, label, vname, rp):
 
 
 def check_lookup(lib, part, m, exp, queries, tcodes, label, vname, rp):
-    """every (type code, query) and every (type code, id) against the dictionary."""
+    """every (type code, query) and every (type code, id) against the dictionary.  Codes that are not nameable types
+    get the names themselves (+ "" / "world"), nameable types the full derived query set."""
+    n2i, i2n = raw(lib)
+    mp = m.ptr
     nlook = 0
+    small = [(qs, qb) for qs, qb, isname in queries if isname]
     for code, key in tcodes:
         names = exp[key] if key else []
         n = len(names)
@@ -293,41 +310,41 @@ def check_lookup(lib, part, m, exp, queries, tcodes, label, vname, rp):
         # ---- id -> name
         ids = list(range(-2, n + 2)) + [n + 1000, INT_MAX, INT_MIN]
         for i in ids:
-            try:
-                got = id2name_bytes(lib, m, code, i)
-            except mj.MjError as e:
-                part.violation("mj_id2name raises mju_error [%s %s]" % (tk, vname), "%s: code %d id %d: %s" % (label, code, i, e), rp)
-                continue
+            got = i2n(mp, code, i)
             want = _b(names[i]) if 0 <= i < n and names[i] != "" else None
-            nlook += 1
             if got != want:
                 kind = "named" if want is not None else ("unnamed" if 0 <= i < n else "out-of-range")
                 part.violation("mj_id2name wrong for %s id [%s %s]" % (kind, tk, vname),
                                "%s: mj_id2name(type=%d, id=%d) = %r, dictionary says %r" % (label, code, i, got, want),
                                dict(rp, type=code, id=i))
+        nlook += len(ids)
         # ---- name -> id
-        for qs, qb in queries:
-            try:
-                got = lib.mj_name2id(m, code, qb)
-            except mj.MjError as e:
-                part.violation("mj_name2id raises mju_error [%s %s]" % (tk, vname), "%s: code %d %r: %s" % (label, code, qs, e), rp)
-                continue
+        qq = queries if key else small
+        for q in qq:
+            qs = q[0]
+            got = n2i(mp, code, q[1])
             want = index.get(qs, -1)
-            nlook += 1
             if got != want:
                 kind = "a name of the type" if want >= 0 else ("the empty string" if qs == "" else "a non-name")
                 part.violation("mj_name2id wrong for %s [%s %s]" % (kind, tk, vname),
                                "%s: mj_name2id(type=%d, %r) = %d, dictionary says %d" % (label, code, qs[:60], got, want),
                                dict(rp, type=code, query=qs))
+        nlook += len(qq)
         # ---- round trip through the API alone
         for i in range(n):
-            nm = id2name_bytes(lib, m, code, i)
-            if nm is not None and lib.mj_name2id(m, code, nm) != i:
+            nm = i2n(mp, code, i)
+            if nm is not None and n2i(mp, code, nm) != i:
                 part.violation("mj_name2id(mj_id2name(id)) != id [%s %s]" % (tk, vname),
-                               "%s: type %d id %d name %r -> %d" % (label, code, i, nm, lib.mj_name2id(m, code, nm)),
+                               "%s: type %d id %d name %r -> %d" % (label, code, i, nm, n2i(mp, code, nm)),
                                dict(rp, type=code, id=i))
-            nlook += 1
+        nlook += n
     return nlook
+
+
+def make_queries(H, exp, allnames):
+    qset = derived_queries(allnames) | collision_queries(H, exp, allnames)
+    base = set(allnames) | {"", "world"}
+    return sorted((s, _b(s), s in base) for s in qset if "\0" not in s)
 
 
 def variants(lib, m):
@@ -372,8 +389,7 @@ def check_generated(lib, part, H, codes, enum, item):
             raise RuntimeError("generator dictionary is wrong: %s has %d objects, expected %d (%s)" % (
                 key, int(getattr(m, nf)), len(exp[key]), label))
     allnames = {s for v in exp.values() for s in v if s != ""} | {modelname}
-    qset = derived_queries(allnames) | collision_queries(H, exp, allnames)
-    queries = sorted((s, _b(s)) for s in qset if "\0" not in s)
+    queries = make_queries(H, exp, allnames)
     tcodes = type_code_list(codes, enum)
     mods = [("compiled", m)] + variants(lib, m)
     if len(mods) != 3:
@@ -413,7 +429,7 @@ def derived_models():
                '<body name="r"><geom name="r" size=".1"/></body></worldbody></mujoco>' % cnt)
         sfx = ["%0*d" % (w, i) for i in range(cnt)]
         exp = {"body": ["world"] + ["r" + s for s in sfx] + ["r"], "joint": ["r" + s for s in sfx],
-               "geom": ["r" + s for s in sfx] + [""] * cnt + ["r"], "site": ["rs" + s for s in sfx],
+               "geom": [x for s in sfx for x in ("r" + s, "")] + ["r"], "site": ["rs" + s for s in sfx],
                "camera": ["R" + s for s in sfx]}
         out.append(("replicate%d" % cnt, xml, exp, False))
     # fusestatic: static bodies disappear, their elements keep their names
@@ -430,7 +446,7 @@ def derived_models():
            '<worldbody><body name="a"><joint name="a"/><geom name="a" size=".1" contype="0" conaffinity="0" material="a"/>'
            '<geom name="b" size=".1" material="b"/><geom name="ab" type="mesh" mesh="a" contype="0" conaffinity="0"/>'
            '<geom name="aa" type="mesh" mesh="b"/></body></worldbody></mujoco>')
-    exp = {"body": ["world", "a"], "joint": ["a"], "geom": ["b", "aa"], "material": ["b"], "mesh": ["b"]}
+    exp = {"body": ["world", "a"], "joint": ["a"], "geom": ["b", "aa"], "mesh": ["b"]}   # "All materials are discarded"
     out.append(("discardvisual", xml, exp, True))
     return out
 
@@ -446,7 +462,7 @@ def selfcheck_models():
                   '<joint kind="main" damping=".01"/><geom type="capsule" size=".01"/></composite></worldbody></mujoco>'),
         ("replicate_nested", '<mujoco><worldbody><replicate count="3" offset="1 0 0"><replicate count="11" offset="0 1 0">'
                              '<body name="b"><joint name="j"/><geom name="g" size=".1"/></body></replicate></replicate>'
-                             '</worldbody><sensor><clock name="b00"/></sensor></mujoco>'),
+                             '<body name="b00"><geom name="g00" size=".1"/></body></worldbody></mujoco>'),
     ]
 
 
@@ -471,10 +487,11 @@ def check_set_model(lib, part, H, codes, enum, name, xml, exp, setonly):
         if not same:
             part.violation("derived model: names differ from the documented naming rule [%s %s]" % (name, key),
                            "%s: type %s names %r expected %r" % (name, key, gots, want), rp)
-            continue
+            m.free()
+            return
         full[key] = gots   # order as compiled (multiset equal) -> full dictionary check below
     allnames = {s for v in full.values() for s in v if s}
-    queries = sorted((s, _b(s)) for s in derived_queries(allnames) | collision_queries(H, full, allnames))
+    queries = make_queries(H, full, allnames)
     for vname, mm in [("compiled", m)] + variants(lib, m):
         check_tables(part, H, mm, full, name, vname, rp)
         nl += check_lookup(lib, part, mm, full, queries, type_code_list(codes, enum), name, vname, rp)
@@ -504,7 +521,7 @@ def check_self_model(lib, part, H, codes, enum, name, xml):
             m.free()
             return
     allnames = {s for v in full.values() for s in v if s}
-    queries = sorted((s, _b(s)) for s in derived_queries(allnames) | collision_queries(H, full, allnames))
+    queries = make_queries(H, full, allnames)
     nl = 0
     for vname, mm in [("compiled", m)] + variants(lib, m):
         check_tables(part, H, mm, full, name, vname, rp)
